@@ -762,7 +762,24 @@ func (t *Table) deleteIndex(index *Index) error {
 	}
 
 	t.indexes = newIndexes
-	delete(t.indexesByColID, index.id)
+
+	// indexesByColID is keyed by column id: drop the index from the list of each of its columns
+	for _, col := range index.cols {
+		colIndexes := make([]*Index, 0, len(t.indexesByColID[col.id]))
+
+		for _, i := range t.indexesByColID[col.id] {
+			if i.id != index.id {
+				colIndexes = append(colIndexes, i)
+			}
+		}
+
+		if len(colIndexes) == 0 {
+			delete(t.indexesByColID, col.id)
+		} else {
+			t.indexesByColID[col.id] = colIndexes
+		}
+	}
+
 	delete(t.indexesByName, index.Name())
 
 	return nil
